@@ -177,6 +177,9 @@ class Context:
         self.exported_vars: set[str] = set()
         self.name = name
         self.globals_keys = set() if globals is None else set(globals)
+        # the mapping itself: a module imported without context gets the
+        # values of these globals, not of render variables that shadow them
+        self._globals = globals
 
         # create the initial mapping of blocks.  Whenever template inheritance
         # takes place the runtime will update this mapping with the new blocks
